@@ -48,9 +48,12 @@ pub fn spec() -> PropSpec<Case> {
       )
         .prop_map(|(build, walk_roots, skip, fc)| Case {
           build,
+          fc: fc.map(|mut f| {
+            f.impl_import_missing = walk_roots.first().map(|r| r % 2 == 0).unwrap_or(false);
+            f
+          }),
           walk_roots,
           skip,
-          fc,
         })
         .boxed()
     },
